@@ -19,10 +19,15 @@ Vals == << Whole(0), Whole(1), Whole(-2), Whole(10), Rat(1, 2), Rat(-5, 2), Whol
            T(<<70, 65, 76, 83, 69>>), T(<<32>>), T(<<233>>),
            Bool(TRUE), Bool(FALSE), Blank >>
 NV == Len(Vals)
+\* dates before the fictitious 29 Feb 1900 against the numbers around their serials
+EarlyDates == << Date(1), Date(31), Date(59) >>
+NearNums   == << Whole(1), Whole(2), Whole(31), Whole(32), Whole(59), Whole(60), Rat(119, 2), Whole(61) >>
 CmpF == {"OP_EQ", "OP_NE", "OP_LT", "OP_GT", "OP_LE", "OP_GE"}
 
 InitCase ==
   \/ \E i \in 1..NV, j \in 1..NV, f \in CmpF : case = [f |-> f, args |-> <<Vals[i], Vals[j]>>, third |-> Blank]
+  \/ \E i \in 1..Len(EarlyDates), j \in 1..Len(NearNums), f \in CmpF, sw \in BOOLEAN :
+        case = [f |-> f, args |-> IF sw THEN <<NearNums[j], EarlyDates[i]>> ELSE <<EarlyDates[i], NearNums[j]>>, third |-> Blank]
   \/ \E i \in 1..NV, j \in 1..NV, k \in 1..NV : case = [f |-> "OP_LT", args |-> <<Vals[i], Vals[j]>>, third |-> Vals[k]]
 
 Pending == [t |-> "pending"]
